@@ -120,6 +120,7 @@ package leader
 //@ lockinv kvElection.mu C18+C02+C09.stopped_implies_state:  stopped ==> state == "STOPPED"
 //@ lockinv kvElection.mu C09+C19.cancel_set_with_ctx:    ctx != nil ==> cancel != nil
 //@ lockinv kvElection.mu C19.term_cancel_set:            isLeader ==> termCancel != nil
+//@ lockinv kvElection.mu C01.leader_has_written:         isLeader ==> revSet
 
 // Hooks that apply in every function: whoever stores the claim refreshes the
 // gauge before releasing the mutex; whoever reports a transition reports the
@@ -171,6 +172,14 @@ package leader
 //@   requires C01+C02.delete_only_by_stopping_leader: caller.mayDelete
 //@   requires C01+C02.delete_after_claim_cleared: $claimCleared
 //@   requires C01.delete_by_current_owner: OwnsRecordNow(e)
+
+// A store may offer a delete that is conditional on the revision (the NATS adapter does): the stopping leader
+// then names its own last write, and the store removes the record only if that is still the latest revision.
+//@ iface RevisionDeleter.DeleteRevision(key, rev)
+//@   requires C01.key_is_group: key == e.key
+//@   requires C01+C02.delete_only_by_stopping_leader: caller.mayDelete
+//@   requires C01+C02.delete_after_claim_cleared: $claimCleared
+//@   requires C01.conditional_delete_names_own_write: Own(rev)
 
 //@ iface KeyValue.Watch(key, opts)
 //@   requires C01.key_is_group: key == e.key
@@ -572,7 +581,7 @@ package leader
 //@   ensures C08.demote_iff_claim_cleared: !ctxNilL ==> (wasLeaderL ? (calls(onDemote) == 1 || (calls(onDemote) == 0 && demoteNilSeen)) : calls(onDemote) == 0)
 //@   ensures C09.second_stop: ctxNilL ==> result == ErrAlreadyStopped && calls(cancel) == 0 && calls(onDemote) == 0
 //@   ensures C09.stop_cancels: !ctxNilL ==> result == nil
-//@   ensures C01.stop_never_deletes: calls(KeyValue.Delete) == 0
+//@   ensures C01.stop_never_deletes: calls(KeyValue.Delete) == 0 && calls(RevisionDeleter.DeleteRevision) == 0
 
 //@ func (e *kvElection) StopWithContext(ctx, opts)
 //@   tags C09 C08 C18 C01 C20
@@ -592,19 +601,22 @@ package leader
 //@   on unlock kvElection.mu when firstUnlock assert C19+C09.stop_cancels_before_release: ctxNilL || calls(cancel) == 1
 //@   on unlock kvElection.mu set firstUnlock = false
 //@   on call KeyValue.Delete assert C19+C09.delete_after_cancel: calls(cancel) == 1
+//@   on call RevisionDeleter.DeleteRevision assert C19+C09.delete_after_cancel: calls(cancel) == 1
 //@   on load kvElection.onDemote as l when l.value == nil set demoteNilSeen = true
 //@   on call KeyValue.Delete set mayDelete = opts.DeleteKey && wasLeaderL
+//@   on call RevisionDeleter.DeleteRevision set mayDelete = opts.DeleteKey && wasLeaderL
 //@   on call wg.Wait assert C09.stop_waits_time_boxed: inspawn()
 //@   on select as s assert C09.stop_waits_time_boxed: s.blocking ==> s.hasAfter
 //@   on select as s assert C09.stop_waits_honour_the_callers_context: s.blocking ==> s.hasDone && s.doneCtx == ctx
 //@   ensures C08.demote_iff_claim_cleared: result == nil && !ctxNilL ==> (wasLeaderL ? (calls(onDemote) + scalls(onDemote) == 1 || (calls(onDemote) + scalls(onDemote) == 0 && demoteNilSeen)) : calls(onDemote) + scalls(onDemote) == 0)
-//@   ensures C09.delete_issued: result == nil && !ctxNilL && opts.DeleteKey && wasLeaderL ==> calls(KeyValue.Delete) == 1
-//@   ensures C01+C07.delete_issued_at_most_once: calls(KeyValue.Delete) + scalls(KeyValue.Delete) <= 1
+//@   ensures C09.delete_issued: result == nil && !ctxNilL && opts.DeleteKey && wasLeaderL ==> calls(KeyValue.Delete) + calls(RevisionDeleter.DeleteRevision) == 1
+//@   ensures C01+C07.delete_issued_at_most_once: calls(KeyValue.Delete) + scalls(KeyValue.Delete) + calls(RevisionDeleter.DeleteRevision) + scalls(RevisionDeleter.DeleteRevision) <= 1
 //@   ghost released Bool = false
 //@   on ret KeyValue.Delete set released = true
+//@   on ret RevisionDeleter.DeleteRevision set released = true
 //@   on call onDemote assert C01+C02+C07.key_released_before_user_callback: !(opts.DeleteKey && wasLeaderL) || released
-//@   ensures C01+C02+C07.delete_only_with_option: !(opts.DeleteKey && wasLeaderL) ==> calls(KeyValue.Delete) == 0
-//@   ensures C09.second_stop: ctxNilL ==> result == ErrAlreadyStopped && calls(cancel) == 0 && calls(onDemote) == 0 && calls(KeyValue.Delete) == 0
+//@   ensures C01+C02+C07.delete_only_with_option: !(opts.DeleteKey && wasLeaderL) ==> calls(KeyValue.Delete) == 0 && calls(RevisionDeleter.DeleteRevision) == 0
+//@   ensures C09.second_stop: ctxNilL ==> result == ErrAlreadyStopped && calls(cancel) == 0 && calls(onDemote) == 0 && calls(KeyValue.Delete) == 0 && calls(RevisionDeleter.DeleteRevision) == 0
 
 //@ func (e *kvElection) Status()
 //@   tags C18 C20
@@ -1127,6 +1139,16 @@ package leader
 //@   on call nats.KeyValue.Delete as c assert C14.delete_passthrough: c.recv == a.kv && c.key == key && isnil(c.opts)
 //@   on ret nats.KeyValue.Delete as c set r0 = c.result
 //@   ensures C14.delete_passthrough: calls(nats.KeyValue.Delete) == 1 && calls(nats.KeyValue.Purge) == 0
+//@   ensures C14.delete_result_unchanged: result == r0
+
+//@ func (a *natsKeyValueAdapter) DeleteRevision(key, rev)
+//@   tags C14 C01
+//@   ghost r0 Int = 0
+//@   ghost optRev Int = -1
+//@   on call nats.LastRevision as l set optRev = l.arg0
+//@   on call nats.KeyValue.Delete as c assert C14.conditional_delete_passthrough: c.recv == a.kv && c.key == key && !isnil(c.opts) && optRev == rev
+//@   on ret nats.KeyValue.Delete as c set r0 = c.result
+//@   ensures C14.conditional_delete_passthrough: calls(nats.KeyValue.Delete) == 1 && calls(nats.LastRevision) == 1 && calls(nats.KeyValue.Purge) == 0
 //@   ensures C14.delete_result_unchanged: result == r0
 
 //@ func (a *natsKeyValueAdapter) Watch(key, opts)
